@@ -59,6 +59,9 @@ pub struct TreeCfg {
     /// the instrumented filter plays a client that opens a snapshot in the middle of a compaction
     #[serde(default)]
     pub mid_snapshot: bool,
+    /// lz4 for data blocks, index blocks and blobs (default: none, as the pinned suite is built)
+    #[serde(default)]
+    pub lz4: bool,
 }
 
 impl TreeCfg {
@@ -91,6 +94,7 @@ impl TreeCfg {
             ],
             filter_verdicts: None,
             mid_snapshot: false,
+            lz4: false,
         }
     }
 
@@ -242,7 +246,17 @@ impl Driver {
                     FilterPolicyEntry::Bloom(BloomConstructionPolicy::FalsePositiveRate(f))
                 }
             }))
-            .expect_point_read_hits(c.expect_point_read_hits);
+            .expect_point_read_hits(c.expect_point_read_hits)
+            .data_block_compression_policy(lsm_tree::config::CompressionPolicy::all(if c.lz4 {
+                lsm_tree::CompressionType::Lz4
+            } else {
+                lsm_tree::CompressionType::None
+            }))
+            .index_block_compression_policy(lsm_tree::config::CompressionPolicy::all(if c.lz4 {
+                lsm_tree::CompressionType::Lz4
+            } else {
+                lsm_tree::CompressionType::None
+            }));
 
         let cache = self
             .shared
@@ -264,7 +278,7 @@ impl Driver {
                     .file_target_size(b.file_target)
                     .staleness_threshold(b.staleness)
                     .age_cutoff(b.age_cutoff)
-                    .compression(lsm_tree::CompressionType::None),
+                    .compression(if c.lz4 { lsm_tree::CompressionType::Lz4 } else { lsm_tree::CompressionType::None }),
             ));
         }
 
